@@ -296,3 +296,34 @@ package io
 //@   ensures [memory_position_never_goes_back] dec.reader == nil ==> dec.head >= old(dec.head)
 
 //@ funcs \(\*Decoder\)\.Read(Int|Uint)(8|16|32|64)? : template decthin
+
+// ---- strings (C04) --------------------------------------------------------------------------
+//
+// The declared length (UTF-16 units) comes off the wire and the bytes are arbitrary: the string
+// readers never index or slice outside the loaded window, never leave head > tail, and allocate
+// no more than is loaded, whatever the length and the lead bytes say.
+
+// one character: off advances by 1..4; a 4-byte character takes two units and needs two
+//@ func (*Decoder).checkUTF8String
+//@   prop C04
+//@   nopanic
+//@   requires dec != nil && 0 <= off && off < len(buf)
+//@   modifies dec.Error
+//@   ensures [advances_by_the_length_of_the_lead_byte] result2 ==> off < result0 && result0 <= off + 4 &&
+//@       ((result0 <= off + 3 && result1 == utf16Length) || (result0 == off + 4 && result1 == utf16Length - 1 && utf16Length >= 2))
+//@   ensures [invalid_lead_byte_is_an_error] !result2 ==> dec.Error != nil && result0 == off && result1 == utf16Length
+//@   ensures [error_is_sticky] old(dec.Error) != nil ==> dec.Error != nil
+
+// fast path: the window holds at least 3 bytes per declared unit, so the string ends inside it
+//@ func (*Decoder).fastReadStringAsBytes
+//@   prop C04
+//@   nopanic
+//@   requires dec != nil && 0 <= dec.head && dec.head <= dec.tail && dec.tail <= len(dec.buf)
+//@   requires [three_bytes_per_unit_are_loaded] utf16Length <= (dec.tail - dec.head) / 3
+//@   let u0 = utf16Length
+//@   modifies dec.head, dec.Error
+//@   loop 1 invariant [within_three_bytes_per_unit] 0 <= off && utf16Length <= u0 && (u0 <= 0 || off <= 3 * (u0 - utf16Length)) && len(buf) == dec.tail - dec.head && dec.head == old(dec.head) && dec.tail == old(dec.tail)
+//@   loop 1 invariant [sticky] old(dec.Error) != nil ==> dec.Error != nil
+//@   ensures [window_well_formed] old(dec.head) <= dec.head && dec.head <= dec.tail && dec.tail == old(dec.tail)
+//@   ensures [result_is_a_view_of_the_window] data == nil || (arr(data) == arr(dec.buf) && off(data) == off(dec.buf) + old(dec.head) && len(data) == dec.head - old(dec.head))
+//@   ensures [error_is_sticky] old(dec.Error) != nil ==> dec.Error != nil
